@@ -7,6 +7,11 @@ PAT="${1:-}"
 groups_for() {
   case "$1" in
     *c03a3*|*c08a2*|*c09a4*|*r2c09_4*|*r2c03_3*) echo "SE2d;SE2f;BunAd";;
+    *r3c14_3*) echo "BunAd;BunAf;BunBd";;
+    *r3c14_1*|*r3c09_2*) echo "SO3d;SO3f;SE3d;SE3f";;
+    *r3c09_1*) echo "SGal3d;SGal3f;BunBd";;
+    *r3c09_3*) echo "SO3d;SO3f;SE3d";;
+    *r3c10_*) echo "SO3d;SE2f;SE3d;BunAd";;
     *r2c14_3*) echo "BunAd;BunAf;BunBd";;
     *r2c14_2*|*r2c09_1*|*r2c09_2*|*r2c10_*|*r2c03_*) echo "SO3d;SO3f;SE3d;SE3f";;
     *r2c08_*) echo "SO3d;SE2d;SE3d;SE2f";;
